@@ -200,6 +200,7 @@ CHECKS = {
               dict(mode="valgrind", args=["--quota", "60"], tiers=("thorough",), timeout=7200),
               dict(mode="miri", args=["--quota", "3"], tiers=("quick",), timeout=1500),
               dict(mode="miri-realcopy", args=["--quota", "2"], tiers=("quick",), shards=8, timeout=1500),
+              dict(mode="miri-stack", args=["--quota", "2"], tiers=("quick",), shards=8, timeout=1500),
               dict(mode="miri", args=["--quota", "40"], tiers=("thorough",), timeout=7200),
               dict(mode="miri-realcopy", args=["--quota", "30"], tiers=("thorough",), timeout=7200),
               dict(mode="miri-stack", args=["--quota", "20"], tiers=("thorough",), timeout=7200)],
